@@ -101,6 +101,13 @@ def gradient(cx, n=2, ncols=1, method="custom_exactsolve", opkind="dense", withE
         kw["method"] = method
     if bck_method is not None:
         kw["bck_options"] = {"method": bck_method}
+    if not cx.symbolic:
+        # seeded concrete inputs (translator validation, replays): skip (nearly) singular systems, where float64 and exact
+        # arithmetic legitimately disagree; the symbolic run carries the assumption det != 0 on its own
+        with torch.no_grad():
+            for j in range(ncols):
+                Kj = Amat.detach() if E is None else Amat.detach() - E.detach()[..., j] * (M.detach() if M is not None else torch.eye(n, dtype=Amat.dtype))
+                cx.assume(torch.linalg.det(Kj).abs() > 1e-3, note="A - e_j M well away from singular on concrete inputs")
     X = solve(A, B, E, Mop, **kw)
     Xr = _reference(Amat, B, E, M)
     cx.claim_eq("X", X, Xr)
